@@ -182,6 +182,9 @@ func (c *canonicaliser) object(o *Object) {
 	case OBytes:
 		c.i32(o.Arr.id)
 		c.term(o.Size)
+		if o.InPool {
+			c.u8(1)
+		}
 	case OMap:
 		c.i32(int32(len(o.Keys)))
 		for i := range o.Keys {
